@@ -583,10 +583,30 @@ impl Sim {
         if sim.cfg.rel && sim.rng.below(3) == 0 {
             sim.prepopulate();
         }
+        // rarely: a world so large that the state a joining client is sent exceeds 64 KiB
+        // (decided from the seed without touching the run's random stream)
+        if sim.cfg.vis == Vis::All && crate::util::fnv64(&[seed.to_le_bytes(), *b"bigworld"].concat()) % 300 == 0 {
+            sim.big_world();
+        }
         for i in 0..sim.clients.len() {
             sim.connect(i);
         }
         sim
+    }
+
+    /// Thousands of small replicated entities that exist before anybody connects.
+    fn big_world(&mut self) {
+        let n = 2400 + (self.seed % 400) as usize;
+        for i in 0..n {
+            let v = (i as u32).wrapping_mul(2654435761) % 100000;
+            let id = self.server.world_mut().spawn((Replicated, Va(v), Blob(vec![(i % 251) as u8; 18 + i % 5]))).id();
+            self.ents.push(id);
+        }
+        if self.server_frames_since_start == 0 {
+            self.server_frame(false);
+        }
+        self.note(format!("big world: {n} replicated entities before the first connection"));
+        self.obs.inc("worlds_with_more_than_64k_of_initial_state");
     }
 
     /// A world that already holds related entities (of both synchronized relationship types) when the
@@ -1103,6 +1123,9 @@ impl Sim {
             };
             self.obs.inc(&format!("s2c_msgs_ch{}", ch.min(2)));
             self.obs.add("s2c_bytes", m.len() as u64);
+            if ch == 0 {
+                self.obs.max("max_update_message_bytes", m.len() as u64);
+            }
             self.monitor_outgoing(ci, ch, &m);
             self.clients[ci].s2c.entry(ch).or_default().push_back(m);
         }
